@@ -20,6 +20,7 @@ import (
 	"os"
 	"os/exec"
 	"path/filepath"
+	"runtime/debug"
 	"sort"
 	"strconv"
 	"strings"
@@ -312,11 +313,17 @@ func (s *scen) ensureLocal() {
 
 // countFile has the real counter library write a count file at time now.
 // The mode file must not say "off" at this point.
-func (s *scen) countFile(now time.Time, ncounters int) {
+//
+// prog is the program the file belongs to (the library takes it from the
+// build info): files of different programs share a week, and os.ReadDir lists
+// them by program name, not by begin date.
+func (s *scen) countFile(now time.Time, ncounters int, prog string) {
 	s.ensureLocal()
 	telemetry.Default = telemetry.NewDir(s.dir)
 	counter.CounterTime = func() time.Time { return now }
 	f := counter.VerifNewFile()
+	f.SetBuildInfo(&debug.BuildInfo{GoVersion: "go1.23.5", Path: "example.com/cmd/" + prog,
+		Main: debug.Module{Path: "example.com/cmd", Version: "v1.2.3"}})
 	f.Rotate1()
 	if f.CurrentName() == "" {
 		panic("rotate1 failed in scenario set-up")
@@ -353,11 +360,16 @@ func genBaseTime() time.Time {
 
 // chooseMode writes the mode file.  asof candidates sit around the begin day
 // of the first count file and around the week end.
-func (s *scen) chooseMode(ref, refEnd time.Time) {
+func (s *scen) chooseMode(ref, refEnd time.Time, exact bool) {
 	day := 24 * time.Hour
 	var asof time.Time
 	hasAsof := true
-	switch rnd.Intn(12) {
+	pick := rnd.Intn(12)
+	if exact {
+		pick = 2 // asof = ref, which the caller placed between the begin days
+		out.Note("asof-between-begin-days")
+	}
+	switch pick {
 	case 0:
 		hasAsof = false
 		out.Note("asof-none")
@@ -658,7 +670,27 @@ func caseScenario() {
 	s := newScen()
 	defer func() { os.RemoveAll(s.dir) }()
 	base := genBaseTime()
-	nfiles := Pick(rnd, []int{0, 1, 1, 1, 2, 2, 3})
+	nfiles := Pick(rnd, []int{0, 1, 1, 1, 2, 2, 2, 3, 3})
+	// Programs: the listing order of a week's files (by name) against their
+	// begin order.  "reversed": the later a file begins the earlier it is listed.
+	progs := []string{"aaa", "mmm", "zzz"}
+	order := "same-program"
+	switch rnd.Intn(4) {
+	case 0:
+		order = "listing-reversed"
+		progs = []string{"zzz", "mmm", "aaa"}
+	case 1:
+		order = "listing-forward"
+	case 2:
+		order = "listing-random"
+		for i := range progs {
+			j := rnd.Intn(i + 1)
+			progs[i], progs[j] = progs[j], progs[i]
+		}
+	default:
+		progs = []string{"vh", "vh", "vh"}
+	}
+	oneWeek := nfiles > 1 && rnd.Intn(3) > 0 // keep all the files inside the first file's week
 	t := base
 	for i := 0; i < nfiles; i++ {
 		nc := 1 + rnd.Intn(2)
@@ -666,8 +698,33 @@ func caseScenario() {
 			nc = 0
 			out.Note("count-file-without-counters")
 		}
-		s.countFile(t, nc)
-		t = t.Add(time.Duration(1+rnd.Intn(4)) * 24 * time.Hour)
+		s.countFile(t, nc, progs[i])
+		step := time.Duration(1+rnd.Intn(4)) * 24 * time.Hour
+		if oneWeek {
+			// the week ends 1..7 days after the first begin: stay before that end when possible
+			room := int(s.ends[0].Sub(s.begins[i]) / (24 * time.Hour)) // >= 1
+			if room >= 2 {
+				step = time.Duration(1+rnd.Intn(room-1)) * 24 * time.Hour
+			} else {
+				step = time.Duration(rnd.Intn(20)) * time.Hour // same day, another program
+			}
+		}
+		t = t.Add(step)
+	}
+	if nfiles > 1 {
+		out.Note(order)
+		same := 0
+		for i := 1; i < nfiles; i++ {
+			if s.ends[i].Equal(s.ends[0]) {
+				same++
+			}
+		}
+		if same > 0 {
+			out.Note("files-sharing-the-first-week")
+			if !s.begins[nfiles-1].Equal(s.begins[0]) && order != "same-program" {
+				out.Note("shared-week-different-begin-days")
+			}
+		}
 	}
 	out.Note(fmt.Sprintf("count-files-%d", nfiles))
 	ref, refEnd := base.Truncate(24*time.Hour), base.Truncate(24*time.Hour).Add(5*24*time.Hour)
@@ -676,6 +733,14 @@ func caseScenario() {
 		if nfiles > 1 && rnd.Bool() {
 			ref = s.begins[rnd.Intn(nfiles)]
 		}
+	}
+	between := false
+	if nfiles > 1 && s.begins[nfiles-1].After(s.begins[0]) && rnd.Intn(3) == 0 {
+		// opt-in date on a day from the first begin up to the day before the last begin:
+		// some of the data is from on/before it, some strictly after
+		days := int(s.begins[nfiles-1].Sub(s.begins[0]) / (24 * time.Hour))
+		ref = s.begins[0].Add(time.Duration(rnd.Intn(days)) * 24 * time.Hour)
+		between = true
 	}
 	if rnd.Intn(8) == 0 {
 		// a telemetry directory whose path contains the week's date (notNeeded
@@ -687,7 +752,7 @@ func caseScenario() {
 			out.Note("dir-path-contains-week-date")
 		}
 	}
-	s.chooseMode(ref, refEnd)
+	s.chooseMode(ref, refEnd, between)
 	start := genStart(refEnd)
 	if rnd.Intn(3) > 0 {
 		s.leftovers(start, refEnd)
@@ -721,7 +786,7 @@ func caseScenario() {
 			}
 		}
 		if m, _ := telemetry.NewDir(s.dir).Mode(); m != "off" && rnd.Bool() && start.Year() < 9000 {
-			s.countFile(start.Add(time.Duration(rnd.Intn(48))*time.Hour), 1)
+			s.countFile(start.Add(time.Duration(rnd.Intn(48))*time.Hour), 1, Pick(rnd, []string{"aaa", "mmm", "zzz", "vh"}))
 			out.Note("between-runs-new-count-file")
 		}
 		start = start.Add(time.Duration(rnd.Int63n(int64(12 * 24 * time.Hour))))
@@ -757,13 +822,13 @@ func caseSentinel(which int) {
 	switch which {
 	case 0:
 		// recorded opt-in date 0001-01-01, data collected from 0001-01-01T00:00
-		s.countFile(y1(1).Add(10*time.Hour), 1)
+		s.countFile(y1(1).Add(10*time.Hour), 1, "vh")
 		s.writeMode([]byte("on 0001-01-01"))
 		out.Note("sentinel-asof-zero")
 	case 1:
 		// opt-in 0001-01-03; files begin 0001-01-01 (the zero time) and 0001-01-05
-		s.countFile(y1(1).Add(10*time.Hour), 1)
-		s.countFile(y1(5).Add(10*time.Hour), 1)
+		s.countFile(y1(1).Add(10*time.Hour), 1, "vh")
+		s.countFile(y1(5).Add(10*time.Hour), 1, "vh")
 		s.writeMode([]byte("on 0001-01-03"))
 		out.Note("sentinel-begin-zero")
 	default:
@@ -798,7 +863,7 @@ func caseChild() {
 	s := newScen()
 	defer os.RemoveAll(s.dir)
 	if rnd.Bool() {
-		s.countFile(genBaseTime(), 1) // an older file of another week
+		s.countFile(genBaseTime(), 1, "vh") // an older file of another week
 	}
 	if rnd.Bool() {
 		s.ensureLocal()
